@@ -77,8 +77,15 @@ impl<const N: usize> Tape<N> {
         self.u64() as usize
     }
     pub fn bytes<const K: usize>(&mut self) -> [u8; K] {
+        // element-wise on purpose: an array filled by memcpy is one opaque byte-update for the
+        // symbolic-execution engine, and a constant stored into it afterwards is no longer
+        // seen as a constant (measured: whole decoders became reachable from "concrete" headers)
         let mut out = [0u8; K];
-        out.copy_from_slice(&self.b[self.pos..self.pos + K]);
+        let mut i = 0;
+        while i < K {
+            out[i] = self.b[self.pos + i];
+            i += 1;
+        }
         self.pos += K;
         out
     }
@@ -464,4 +471,55 @@ pub fn stub_format(_args: std::fmt::Arguments<'_>) -> String {
 /// under CBMC (default Write::write_all / Read::read_exact call it on every error).
 pub fn stub_not_interrupted(_e: &std::io::Error) -> bool {
     false
+}
+
+/// Minimal sink with scalar fields only (a sink with arrays inside Option<State<W>> is moved
+/// around by memcpy and makes the stream's state opaque to the symbolic-execution engine:
+/// measured 3 s vs no answer). Keeps the first four bytes, counts bytes / calls / flushes.
+pub struct CountSink {
+    pub bytes: usize,
+    pub writes: usize,
+    pub flushes: usize,
+    pub b0: u8,
+    pub b1: u8,
+    pub b2: u8,
+    pub b3: u8,
+}
+impl CountSink {
+    pub fn new() -> Self {
+        CountSink { bytes: 0, writes: 0, flushes: 0, b0: 0, b1: 0, b2: 0, b3: 0 }
+    }
+    fn take(&mut self, data: &[u8]) {
+        let mut i = 0;
+        while i < data.len() && i < 4 {
+            let k = self.bytes + i;
+            if k == 0 {
+                self.b0 = data[i];
+            } else if k == 1 {
+                self.b1 = data[i];
+            } else if k == 2 {
+                self.b2 = data[i];
+            } else if k == 3 {
+                self.b3 = data[i];
+            }
+            i += 1;
+        }
+        self.bytes += data.len();
+    }
+}
+impl io::Write for CountSink {
+    fn write(&mut self, data: &[u8]) -> io::Result<usize> {
+        self.writes += 1;
+        self.take(data);
+        Ok(data.len())
+    }
+    fn write_all(&mut self, data: &[u8]) -> io::Result<()> {
+        self.writes += 1;
+        self.take(data);
+        Ok(())
+    }
+    fn flush(&mut self) -> io::Result<()> {
+        self.flushes += 1;
+        Ok(())
+    }
 }
